@@ -132,8 +132,105 @@ def walk_sweep(ck, tier):
                             "domain": "every drawn value 1..total for each weight list; next_target_range, distselect, randselect"}
 
 
+def foreach_dists(ck, tier):
+    """dist statements inside a foreach whose weights depend on the iteration: non-random fields of the elements of a list of
+    objects (items[j].w1), or elements of non-random scalar lists read at the index (wa[j]).  Each element gets its own
+    weights, with zeros at generated positions.  Oracle (exact, every call): an element never takes a value whose weight
+    *for that element* is zero, nor a value outside its listed entries; the user may change the weights between calls."""
+    import solvelib as S
+    S.install()
+    import vsc
+    from vsc.model.rand_state import RandState
+    rng = random.Random("C15/foreach-dists/%d" % ck.seed)
+    VALS = [1, 2, 5]
+
+    def classes(n, through_objects):
+        @vsc.randobj
+        class Item:
+            def __init__(self):
+                self.x = vsc.rand_uint8_t()
+                self.w = [vsc.uint8_t(1), vsc.uint8_t(1), vsc.uint8_t(1)]
+                self.w0, self.w1, self.w2 = self.w
+
+        @vsc.randobj
+        class TopO:
+            def __init__(self):
+                self.items = vsc.rand_list_t(Item())
+                for _ in range(n):
+                    self.items.append(Item())
+
+            @vsc.constraint
+            def dist_c(self):
+                with vsc.foreach(self.items, idx=True) as j:
+                    vsc.dist(self.items[j].x, [vsc.weight(VALS[0], self.items[j].w0), vsc.weight(VALS[1], self.items[j].w1),
+                                               vsc.weight(VALS[2], self.items[j].w2)])
+
+        @vsc.randobj
+        class TopS:
+            def __init__(self):
+                self.xs = vsc.rand_list_t(vsc.uint8_t(), n)
+                self.wa = vsc.list_t(vsc.uint8_t(), n)
+                self.wb = vsc.list_t(vsc.uint8_t(), n)
+                self.wc = vsc.list_t(vsc.uint8_t(), n)
+
+            @vsc.constraint
+            def dist_c(self):
+                with vsc.foreach(self.xs, idx=True) as j:
+                    vsc.dist(self.xs[j], [vsc.weight(VALS[0], self.wa[j]), vsc.weight(VALS[1], self.wb[j]),
+                                          vsc.weight(VALS[2], self.wc[j])])
+        return TopO if through_objects else TopS
+    for cno in range(40 if tier == "thorough" else 5):
+        n = rng.randint(2, 4)
+        through_objects = rng.random() < 0.5
+        try:
+            with common.quiet():
+                t = classes(n, through_objects)()
+        except Exception as e:
+            ck.oracle_fail("foreach-dist:construction:%s" % type(e).__name__, {"objects": through_objects}, str(e)[:200], "the class builds")
+            continue
+        hist = []
+        for rnd in range(3):
+            ws = []
+            for j in range(n):
+                w = [rng.choice([0, 0, 1, 2, 4]) for _ in VALS]
+                if sum(w) == 0:
+                    w[rng.randrange(3)] = 3
+                ws.append(w)
+                with common.quiet():
+                    if through_objects:
+                        t.items[j].w0, t.items[j].w1, t.items[j].w2 = w
+                    else:
+                        t.wa[j], t.wb[j], t.wc[j] = w
+            hist.append({"weights_per_element": ws})
+            bad = None
+            for call in range(25):
+                sd = rng.randrange(1 << 30)
+                t.set_randstate(RandState.mkFromSeed(sd))
+                try:
+                    with common.quiet():
+                        t.randomize()
+                except Exception as e:
+                    bad = ("foreach-dist:call-raised:%s" % type(e).__name__, str(e)[:200], "a normal return")
+                    break
+                ck.count("eval_foreach_dist_calls")
+                got = [int(e.x) for e in t.items] if through_objects else [int(v) for v in t.xs]
+                for j, v in enumerate(got):
+                    if v not in VALS:
+                        bad = ("dist-value-outside-listed-entries:foreach", {"element": j, "value": v, "seed": sd}, "a listed value")
+                    elif ws[j][VALS.index(v)] == 0:
+                        bad = ("zero-weight-value-selected:foreach", {"element": j, "value": v, "weights_of_element": ws[j], "seed": sd},
+                               "a value of weight zero for this element is never selected")
+                if bad:
+                    break
+            if bad:
+                ck.oracle_fail(bad[0], {"elements": n, "through_objects": through_objects, "values": VALS, "history": hist}, bad[1], bad[2])
+                break
+    ck.sample({"kind": "dist inside foreach with per-element weights"})
+
+
 def dist_oracles(ck, tier):
     walk_sweep(ck, tier)
+    foreach_dists(ck, tier)
 
 
 RULE = ("as C14 with one or two dist statements per class (values, ranges, zero weights, weights given by non-random fields), alone and "
